@@ -7,6 +7,7 @@ import (
 	"strings"
 
 	"github.com/nspcc-dev/neo-go/pkg/core/fee"
+	"github.com/nspcc-dev/neo-go/pkg/smartcontract/trigger"
 	"github.com/nspcc-dev/neo-go/pkg/vm"
 	"github.com/nspcc-dev/neo-go/pkg/vm/opcode"
 	"github.com/nspcc-dev/neo-go/pkg/vm/stackitem"
@@ -51,11 +52,43 @@ func classOf(v *vm.VM) string {
 }
 
 // runVM executes script on a fresh VM of the code under test.
-func runVM(script []byte) (res vmResult) {
+func runVM(script []byte) vmResult { return runOn(script, newVM) }
+
+// The polluters are what a reused VM ran before: each leaves the machine in
+// another kind of final state (an unhandled exception of either origin, an
+// ABORT inside an armed try block, a HALT with items, static fields and an
+// open call), none of which may reach the next script.
+var polluters = [][]byte{
+	{byte(opcode.PUSH1), byte(opcode.THROW)},
+	{byte(opcode.NEWARRAY0), byte(opcode.PUSH5), byte(opcode.PICKITEM)},
+	{byte(opcode.TRY), 4, 0, byte(opcode.PUSH2), byte(opcode.ABORT), byte(opcode.RET)},
+	{byte(opcode.INITSSLOT), 2, byte(opcode.PUSH3), byte(opcode.NEWARRAY), byte(opcode.DUP), byte(opcode.STSFLD0), byte(opcode.PUSH7), byte(opcode.RET)},
+	{byte(opcode.CALL), 3, byte(opcode.RET), byte(opcode.TRY), 0, 4, byte(opcode.PUSH1), byte(opcode.THROW), byte(opcode.PUSH2), byte(opcode.THROW)},
+	{byte(opcode.PUSH1), byte(opcode.PUSH0), byte(opcode.DIV)},
+}
+
+// runReused executes script on a VM that ran a polluter before and was reset
+// for reuse, the way one VM serves all the transactions of a block.
+func runReused(script []byte, which int) vmResult {
+	return runOn(script, func(own []byte) *vm.VM {
+		v := newVM(bytes.Clone(polluters[which%len(polluters)]))
+		func() {
+			defer func() { _ = recover() }()
+			_ = v.Run()
+		}()
+		v.Reset(trigger.Application)
+		v.SetPriceGetter(func(op opcode.Opcode, _ []byte) int64 { return fee.Opcode(baseExecFee, op) })
+		v.SetGasLimit(gasLimitDatoshi)
+		v.Load(own)
+		return v
+	})
+}
+
+func runOn(script []byte, mk func([]byte) *vm.VM) (res vmResult) {
 	// the VM gets a private copy: executing a script must not change it
 	own := bytes.Clone(script)
 	defer func() { res.scriptChanged = !bytes.Equal(own, script) }()
-	v := newVM(own)
+	v := mk(own)
 	func() {
 		defer func() {
 			if r := recover(); r != nil {
